@@ -457,7 +457,12 @@ class TaskPool:
             and self.runahead_limit_point is not None
             and (
                 base_point == self._prev_runahead_base_point
-                or self.runahead_limit_point == self.stop_point
+                or (
+                    self.runahead_limit_point == self.stop_point
+                    # (a future trigger can spawn a task behind the base
+                    # point that the limit was computed from)
+                    and base_point > self._prev_runahead_base_point
+                )
             )
         ):
             # No need to recompute the list of points if the base point did not
